@@ -38,6 +38,18 @@ CHECKS = {
    note=TB + "All C19 theorems closed under the global context. Tie: random histories compared op by op inside Coq (accepted flag, "
         "read result, final store) with exact integers; unknown resolution strings passed to _add_data are outside the model.",
    design="7/C19", technique="Coq proof (state-machine invariant by induction over histories) + in-Coq differential correspondence"),
+ "C09": dict(
+   text="Proved in Coq for every commutative ring and every component oracle: the constructor builds the sum of its components' "
+        "data and reorganisation energies; a + b for an analytically parameterised left operand and any right operand (value-"
+        "defined included) adds data and reorganisation energy, concatenates components, takes the larger cut-off; every "
+        "expression tree over analytic leaves evaluates to the in-order sums, so any two groupings agree; different temperatures "
+        "are refused by constructor, + and += (the latter without touching the target); x += x doubles; refutation witnesses for "
+        "the two defects of the pinned tree (stale ftype dispatch; += mutating before refusing), both repaired by fix: commits, "
+        "as is SpectralDensity.__add__ under a units context. Validated only: measured reorganisation energy (2%), parity of the "
+        "even/odd Fourier parts (1e-9), SpectralDensity additivity (monitors).",
+   note=TB + "All C09 theorems closed under the global context. The per-component data generators are oracles: the model is fed each "
+        "component built alone by the implementation. Underdamped/B777/CP29 types are not exercised.",
+   design="7/C09", technique="Coq proof (induction over expression trees) + in-Coq differential correspondence on exact rationals"),
 }
 NOT_YET = {}
 def main():
